@@ -549,6 +549,20 @@ let exec (s : t) (verbose : bool) (f : string array) (obs : string option) : str
       step (batch_delete (get_db s) (get_batch s) k)
     done;
     (match !err with None -> "ok" | Some e -> "err " ^ eerr_name e) ^ events_str !all
+  | "bgetrace" ->
+    (* n Puts of one key through the batch, the values alternating between len bytes 'A' and len bytes 'B' (a reader races
+       with them in the implementation; reads change nothing) *)
+    let k = tok_bytes f.(2) and n = int_of_string f.(3) and ln = int_of_string f.(4) in
+    let pat c = List.init ln (fun _ -> n_of_int (Char.code c)) in
+    let pa = pat 'A' and pb = pat 'B' in
+    let all = ref [] and err = ref None in
+    for i = 0 to n - 1 do
+      (match batch_put (get_db s) (get_batch s) k (if i mod 2 = 0 then pa else pb) with
+       | (((d, b), e), evs) ->
+         s.db <- Some d; s.batch <- Some b; all := !all @ evs;
+         (match e, !err with Some x, None -> err := Some x | _ -> ()))
+    done;
+    (match !err with None -> "ok" | Some e -> "err " ^ eerr_name e) ^ events_str !all
   | "bdel" ->
     let (((d, b), e), evs) = batch_delete (get_db s) (get_batch s) (tok_bytes f.(2)) in
     s.db <- Some d; s.batch <- Some b;
@@ -679,6 +693,11 @@ let exec (s : t) (verbose : bool) (f : string array) (obs : string option) : str
        Printf.sprintf "%d %s" (List.length h.hf_recs) (md5hex (Buffer.contents b))
      | Some { m_marker = Some _; m_hint = None; _ } -> "nohint"
      | _ -> "none")
+  | "rmdir" ->
+    (* the closed data directory is deleted; a merge directory beside it stays *)
+    (match s.db with
+     | Some _ -> "skip"
+     | None -> s.disk <- { empty_disk with k_merge = s.disk.k_merge }; "")
   | "straylock" -> ""
   | "linkdir" -> ""
   | "linkfile" -> ""
